@@ -66,6 +66,8 @@ type Run struct {
 	Level string
 
 	start time.Time
+	// LastCase is the last case a child announced before running it (see Emitter.Case).
+	LastCase interface{}
 
 	evals atomic.Int64
 
@@ -125,13 +127,16 @@ func (r *Run) Pick(q, t int) int {
 }
 
 // Rand returns a PRNG derived from the run seed and a stream name.
-func (r *Run) Rand(stream string) *rand.Rand {
+func (r *Run) Rand(stream string) *rand.Rand { return SeedRand(r.Seed, stream) }
+
+// SeedRand returns a PRNG derived from a seed and a stream name.
+func SeedRand(seed int64, stream string) *rand.Rand {
 	h := uint64(1469598103934665603)
 	for i := 0; i < len(stream); i++ {
 		h ^= uint64(stream[i])
 		h *= 1099511628211
 	}
-	return rand.New(rand.NewSource(r.Seed*1000003 + int64(h&0x7fffffffffff)))
+	return rand.New(rand.NewSource(seed*1000003 + int64(h&0x7fffffffffff)))
 }
 
 func (r *Run) SetRule(s string)     { r.rule = s }
